@@ -389,9 +389,30 @@ def handleUnsubRace (st : St) (a p id : Nat) (fs : List Bytes) (topic payload : 
   let (s2, so2) := stepS st.repub s1 e2
   emit { st with m := m2, s := s2 } none false (mo1 ++ mo2) (so1 ++ so2)
 
+/-- `hsrace <a> connect <fields> ; <b> <hex>`: two overlapping handshakes.  The harness holds
+connection `a` inside `Authenticate` (user name "slow…") while connection `b` sends its first packet
+(bytes, as in `rawfirst`, never closing by itself) and is observed to the end; then `a` is released.
+On the code as it is the two handshakes share nothing: `b`'s first packet (and what follows it in
+the same bytes), then `a`'s CONNECT - two events in this order, one output line. -/
+def handleHsRace (st : St) (ea : Ev) (b : Nat) (bs : Bytes) : St × String × String :=
+  match Mqtt.Model.Framing.firstEvent b rawAuth bs true with
+  | none => (st, "bad-op", "bad-op")
+  | some (eb, rest) =>
+    let accepted := (Mqtt.Model.Broker.step st.m eb).1.alive b
+    let (evs, rest') := if accepted then Mqtt.Model.Framing.postEvents ringSize b (rest.length + 1) rest else ([], [])
+    runRaw st b true ([eb] ++ evs ++ [ea]) rest'
+
 def handle (st : St) (ws : List String) : St × String × String :=
   match ws with
   | ["reset"] => ({}, "reset", "reset")
+  | "hsrace" :: a :: rest =>
+    let (af, bf) := splitSemi rest
+    match parseEv ("first" :: a :: af), bf with
+    | some ea, [b, hex] =>
+      match b.toNat?, unhex hex with
+      | some b, some bs => handleHsRace st ea b bs
+      | _, _ => (st, "bad-op", "bad-op")
+    | _, _ => (st, "bad-op", "bad-op")
   | ["unsubrace", a, p, id, fs, topic, payload] =>
     match a.toNat?, p.toNat?, id.toNat?, (fs.splitOn ",").mapM unhex, unhex topic, unhex payload with
     | some a, some p, some id, some fs, some t, some pl => handleUnsubRace st a p id fs t pl
